@@ -262,7 +262,7 @@ class InferScenario:
                 return args[2]
             return None
         # ---- package functions ------------------------------------------------------
-        callee = self.repo.resolve_callee(self.ri.cur_fi, call)
+        callee = self.ri.resolve(call, fval)
         if callee is not None and callee.module.name in (TY, "monkeytype.compat"):
             name = callee.qualname
             if name == self.fi.qualname and self.self_recursion:
